@@ -1,4 +1,5 @@
 """Drivers of the one-attempt simulation for C02, C09, C10."""
+import re
 import time
 
 from checks import common, attempt, events
@@ -6,9 +7,10 @@ from checks.common import Obligation
 
 ORACLE_OF = {
     'C02': ['canonical-event-sequence', 'no-panic-escapes-the-attempt', 'reference-applicable'],
-    'C09': ['world-threaded-through-hooks-and-steps', 'world-created-at-most-once-and-only-when-needed', 'reference-applicable'],
+    # an escaped panic ends the attempt without its after hook and drops the World: the hook contract is broken there too
+    'C09': ['world-threaded-through-hooks-and-steps', 'world-created-at-most-once-and-only-when-needed', 'no-panic-escapes-the-attempt', 'reference-applicable'],
     'C01': ['failed-events-say-retried-iff-the-attempt-is-retried', 'reference-applicable'],
-    'C05': ['attempt-reported-failed-and-retried-correctly', 'no-panic-escapes-the-attempt', 'reference-applicable'],
+    'C05': ['attempt-reported-failed-and-retried-correctly', 'no-panic-escapes-the-attempt', 'retry-delay-counted-from-the-end-of-the-attempt', 'reference-applicable'],
     'C10': ['no-panic-escapes-the-attempt', 'failed-events-carry-the-payload', 'canonical-event-sequence', 'attempt-reported-failed-and-retried-correctly'],
 }
 
@@ -17,6 +19,7 @@ def shapes(tier):
     S = attempt.Shape
     out = [S(fbg=0, rbg=0, steps=2, before=False, after=False), S(fbg=1, rbg=0, steps=1, before=True, after=True),
            S(fbg=0, rbg=1, steps=1, before=False, after=True, retries=(0, 1)), S(fbg=0, rbg=0, steps=0, before=True, after=True)]
+    out.append(S(fbg=0, rbg=0, steps=1, before=False, after=True, retries=(0, 1), delay=True))
     if tier == 'thorough':
         out += [S(fbg=1, rbg=1, steps=2, before=True, after=True, retries=(1, 0)), S(fbg=2, rbg=0, steps=2, before=False, after=True),
                 S(fbg=0, rbg=0, steps=3, before=True, after=False, retries=(0, 2))]
@@ -89,11 +92,98 @@ def run(chk, prop):
     return obs
 
 
+def run_pair(chk, prop):
+    """Two attempts polled in turns on one thread (what execute() does with its in-flight set): whatever run_scenario does
+    to the process panic hook must leave it as it found it, and a user panic must never meet the default hook."""
+    import os
+    from checks import replay
+    pends = (1, 2) if chk.tier == 'thorough' else (1,)
+    S = attempt.Shape
+    shapes_ = [S(fbg=0, rbg=0, steps=1, before=False, after=False)] + ([S(fbg=0, rbg=0, steps=1, before=True, after=True)] if chk.tier == 'thorough' else [])
+    o = chk.add(Obligation('%s.attempt-pair.panic-hook-left-as-found-under-interleaving' % prop,
+                           'two real run_scenario coroutines of %d shape(s) polled in turns, user futures pending %s polls, every outcome (pass / panic when polled / panic when called), '
+                           'World::new ok / Err / panic; panic hook automaton (original / default / silenced / taken-and-restored)' % (len(shapes_), pends)))
+    o.verdict = 'holds'
+    n = 0
+    for shape in shapes_:
+        for pend in pends:
+            out, ex = attempt.simulate(chk, shape, pend=pend, pair=True)
+            for kind, res in out:
+                n += 1
+                if kind != 'ok':
+                    if o.verdict != 'violated':
+                        o.verdict = 'violated' if kind == 'panic' else 'inconclusive'
+                        o.detail = '%s: %s' % (kind, res)
+                    continue
+                if res['escaped'] is not None:
+                    continue        # judged by no-panic-escapes-the-attempt
+                o.paths += 1
+                bad = None
+                if res['hook_end'] != 'outer':
+                    bad = 'after both attempts finished the process panic hook is %r, not the one that was in place when they started' % res['hook_end']
+                for e in res['log']:
+                    if e['kind'] == 'user_panics' and e.get('hook') not in ('outer', 'silenced'):
+                        bad = bad or 'user code (%s) panicked while the process panic hook was %r' % (e['what'], e.get('hook'))
+                if bad and o.verdict != 'violated':
+                    o.verdict = 'violated'
+                    o.detail = '%s (two attempts of shape %s interleaved, user futures pending %d poll(s))' % (bad, shape, pend)
+    o.paths = n
+    if o.verdict == 'violated' and 'panic hook' in (o.detail or ''):
+        # natively: two concurrent scenarios whose steps suspend, then a probe panic after the run must reach the hook
+        # that was installed before it, and the run itself must not have called it
+        lines = ['mode runner', 'hooks none', 'builder max_concurrent=2', 'feature', '| Feature: f', '|   Scenario: a', '|     Given sa', '|   Scenario: b', '|     Given sb',
+                 'step sa yields=3 always_fail', 'step sb yields=5 always_fail', 'runs 1']
+        d = os.path.join(common.EVID, 'replay')
+        os.makedirs(d, exist_ok=True)
+        path = os.path.join(d, '%s-attempt-pair-panic-hook.script' % prop)
+        r, out = replay.run_script('\n'.join(lines) + '\n', path, timeout=60)
+        chk.replays += 1
+        m = re.search(r'LOG HOOK during_run=(\d+) probe_reached=(\d+)', out)
+        if m is None:
+            o.verdict = 'inconclusive'
+            o.detail += ' | native replay failed: %s' % out[-200:]
+        elif m.group(1) == '0' and m.group(2) == '1':
+            o.verdict = 'inconclusive'
+            o.detail += ' | not reproduced natively (two interleaved failing scenarios: the hook was not called during the run and is back afterwards)'
+        else:
+            chk.replay_files.append(path)
+            o.replay = path
+            o.detail += ' | reproduced natively through the real runner: two interleaved failing scenarios, the pre-installed hook was called %s time(s) during the run and a probe panic after the run reached it %s time(s) (expected 0 and 1)' % (m.group(1), m.group(2))
+    return o
+
+
+def confirm_reused_resolution(chk, o, prop):
+    """A step resolved without asking the collection about it: natively, the same raw keyword + text under two different
+    step types (`And dup` after a Given and after a Then), defined for Given steps only - the second one must be Skipped."""
+    import os
+    from checks import replay
+    lines = ['mode runner', 'hooks none', 'builder max_concurrent=1', 'feature', '| Feature: f', '|   Scenario: s', '|     Given first', '|     And dup',
+             '|     Then third', '|     And dup', 'given_only dup']
+    d = os.path.join(common.EVID, 'replay')
+    os.makedirs(d, exist_ok=True)
+    path = os.path.join(d, '%s-attempt-step-resolution-per-step.script' % prop)
+    r, out = replay.run_script('\n'.join(lines) + '\n', path, timeout=60)
+    chk.replays += 1
+    evs = [ln[7:].rsplit(' t=', 1)[0] for ln in out.splitlines() if ln.startswith('LOG EV ') and ':step[dup]:' in ln and ':started' not in ln]
+    if r is None or len(evs) != 2:
+        o.verdict = 'inconclusive'
+        o.detail += ' | native replay failed: %s' % out[-200:]
+    elif ':passed' in evs[0] and ':skipped' in evs[1]:
+        o.verdict = 'inconclusive'
+        o.detail += ' | not reproduced natively (`And dup` under Then, defined for Given only, is Skipped as specified)'
+    else:
+        chk.replay_files.append(path)
+        o.replay = path
+        o.detail += ' | reproduced natively through the real runner: `And dup` as a Given step then as a Then step (defined for Given only) gives %s' % evs
+
+
 def confirm(chk, o, prop, name):
     """Native replay through the real runner (driver mode `runner`) of the violating shape and outcome choices."""
     import os
     import re
     from checks import replay
+    if 'without consulting the step collection' in (o.detail or ''):
+        return confirm_reused_resolution(chk, o, prop)
     shape, res = o.shape, o.res
     tl = res['timeline']
     hows = {}
@@ -113,7 +203,7 @@ def confirm(chk, o, prop, name):
         if shape.rbg:
             lines += ['|     Background:'] + ['|       Given rb%d' % i for i in range(shape.rbg)]
     if shape.retries is not None:
-        lines += ['| %s@retry(%d)' % (ind, shape.retries[0] + shape.retries[1])]
+        lines += ['| %s@retry(%d)%s' % (ind, shape.retries[0] + shape.retries[1], '.after(300ms)' if getattr(shape, 'delay', False) else '')]
     lines += ['| %sScenario: s' % ind] + ['| %s  Given s%d' % (ind, i) for i in range(shape.steps)]
     unsupported = []
     # callbacks whose panic payload has to be neither String nor &str for the deviation to show
@@ -132,8 +222,13 @@ def confirm(chk, o, prop, name):
         h = hows.get(n_)
         if h in ('panic', 'eager_panic'):
             lines.append('step %s always_fail%s%s' % (n_, ' eager' if h == 'eager_panic' else '', ' payload=custom' if n_ in custom else ''))
+    slow_after = name == 'retry-delay-counted-from-the-end-of-the-attempt'
+    if slow_after:
+        lines.append('hook after * busy_ms=600')          # the after hook of every attempt takes longer than the delay
     for hk in ('before', 'after'):
         h = hows.get(hk)
+        if slow_after and hk == 'after':
+            continue
         if h in ('panic', 'eager_panic'):
             lines.append('hook %s * always_fail%s%s' % (hk, ' eager' if h == 'eager_panic' else '', ' payload=custom' if hk in custom else ''))
     if any(k != 'ok' for k in wn):
@@ -178,6 +273,11 @@ def confirm(chk, o, prop, name):
             created = len(re.findall(r'LOG world_new w\d+', out))
             if created > 1:
                 problems.append('%d Worlds created in one attempt' % created)
+        if name == 'retry-delay-counted-from-the-end-of-the-attempt':
+            ends = [int(x) for x in re.findall(r'LOG exit after_hook \[[^\]]*\] call=1 \w+ t=(\d+)', out)]
+            nxt = [int(x) for x in re.findall(r'LOG EV \S*:scenario\[s\]:started r=1/\d+ t=(\d+)', out)]
+            if ends and nxt and nxt[0] - ends[0] < 290:
+                problems.append('the retried attempt started %d ms after the failed attempt (its after hook) ended, the delay is 300 ms' % (nxt[0] - ends[0]))
         if name == 'failed-events-carry-the-payload':
             lost = [e for e in sc if '+unknown-type' in e]
             if lost:
